@@ -368,9 +368,14 @@ def attemptHeaders : List TItem → List (Option Bytes)
 
 /-- the refinement proved as C01, for the streams of a history: the connection's reader dispatches
 exactly the events the specification dispatches -/
-def RefinesSpec (h : List Attempt) : Prop :=
-  ∀ a ∈ h, ∀ src ic, a.out = .stream src ic → ∀ id buf,
+def RefinesSpec (buf : Option (Nat × Int)) (h : List Attempt) : Prop :=
+  ∀ a ∈ h, ∀ src ic, a.out = .stream src ic → ∀ id,
     (implRun true id src buf).1.filter isEvent = (run .gosse true id (srcBytes src) (srcEnd src)).1.filter isEvent
+
+/-- no stream of the history makes the connection's scanner (buffer configuration `buf`) report
+`ErrTooLong`, whatever ID the connection holds at that point -/
+def NoTooLong (buf : Option (Nat × Int)) (h : List Attempt) : Prop :=
+  ∀ a ∈ h, ∀ src ic, a.out = .stream src ic → ∀ id, (implRun true id src buf).2.1 ≠ .tooLong
 
 theorem lastDispatched_filter (id : Bytes) (outs : List Out) :
     lastDispatched id (outs.filter isEvent) = lastDispatched id outs := by
